@@ -15,7 +15,7 @@ from .core import fr, rat
 from .replay import Replayer, class_matches
 
 PAIRABLE = {"CvEval", "CvKnotInsert", "CvDegreeIncrease", "CvSplit", "CvKnotRemove", "CvDegreeDecrease", "CvClean",
-            "CvJoin", "CvCopy", "CvDerivate", "CvIntegrate"}
+            "CvJoin", "CvCopy", "CvDerivate"}   # (Integrate.scalar is, by its name and its property, for scalar curves)
 
 
 def _key(t):
